@@ -128,6 +128,64 @@ func newQuadratic(dim, kappaExp int, seed uint64, start int) *objective {
 	return o
 }
 
+// newRestricted builds a separable strictly convex function whose domain is a
+// proper subset of Rⁿ, started inside the domain (often close to its boundary,
+// so that first trial steps leave it).
+func newRestricted(kind, dim int, seed uint64) *objective {
+	r := vk.NewSplitMix(seed)
+	var starts []float64
+	var name string
+	var f1, g1, h1 func(v float64) float64
+	switch kind {
+	case 1: // minimizer 1/2
+		name, starts = "LogBarrier", []float64{0.01, 0.05, 0.3, 0.7, 0.95, 0.99, 0.001}
+		f1 = func(v float64) float64 { return -math.Log(v) - math.Log(1-v) }
+		g1 = func(v float64) float64 { return -1/v + 1/(1-v) }
+		h1 = func(v float64) float64 { return 1/(v*v) + 1/((1-v)*(1-v)) }
+	case 2: // minimizer 1/4
+		name, starts = "XMinusSqrt", []float64{0.01, 0.04, 0.5, 1, 4, 0.001, 9}
+		f1 = func(v float64) float64 { return v - math.Sqrt(v) }
+		g1 = func(v float64) float64 { return 1 - 0.5/math.Sqrt(v) }
+		h1 = func(v float64) float64 { return 0.25 / (v * math.Sqrt(v)) }
+	default: // minimizer 1
+		name, starts = "InversePlusX", []float64{0.01, 0.1, 0.5, 3, 10, 0.001, 0.3}
+		f1 = func(v float64) float64 {
+			if v <= 0 {
+				return math.Inf(1)
+			}
+			return 1/v + v
+		}
+		g1 = func(v float64) float64 { return -1/(v*v) + 1 }
+		h1 = func(v float64) float64 { return 2 / (v * v * v) }
+	}
+	x0 := make([]float64, dim)
+	for i := range x0 {
+		x0[i] = starts[r.Intn(len(starts))]
+	}
+	o := &objective{name: name, dim: dim, x0: x0}
+	o.f = func(x []float64) float64 {
+		s := 0.0
+		for _, v := range x {
+			s += f1(v)
+		}
+		return s
+	}
+	o.g = func(grad, x []float64) {
+		for i, v := range x {
+			grad[i] = g1(v)
+		}
+	}
+	o.h = func(h *mat.SymDense, x []float64) {
+		for i := range x {
+			for j := i + 1; j < len(x); j++ {
+				h.SetSym(i, j, 0)
+			}
+			h.SetSym(i, i, h1(x[i]))
+		}
+	}
+	return o
+}
+
 // catalogue is a subset of optimize/functions at the documented standard starts.
 // The first nHessCat entries provide a Hessian (usable with Newton).
 const nHessCat = 5
